@@ -46,7 +46,7 @@ impl Sub for SaltHistory {
         2 // a history runs its own threads
     }
     fn strategy(&self, env: &Env) -> BoxedStrategy<HistoryCase> {
-        let signs = env.tier.pick(20_000usize, 250_000usize);
+        let signs = env.tier.pick(50_000usize, 400_000usize);
         let children = env.tier.pick(8usize, 16usize);
         (1usize..=4, 1usize..=2, any::<u64>(), 6usize..=12, 6usize..=12, 1usize..=4, any::<u64>())
             .prop_map(move |(keys512, keys1024, key_base, threads_first, threads_late, messages_per_key, plan)| HistoryCase { keys512, keys1024, key_base, signs, threads_first, threads_late, messages_per_key, children, plan })
@@ -174,15 +174,19 @@ impl Sub for SaltHistory {
 
 fn message(plan: u64, k: usize, m: usize) -> Vec<u8> {
     let s = mix(plan ^ ((k as u64) << 16) ^ m as u64);
-    (0..(s % 40) as usize).map(|j| mix(s + j as u64) as u8).collect()
+    // message index 1 (when a key has more than one message) is a LARGE message whose length is
+    // the same for every key of the history: buffers reused across calls, block-wise hashing and
+    // other size-dependent paths are exercised, with equal-length messages following each other
+    let len = if m == 1 { [4100usize, 5000, 9000, 70_000][(mix(plan) % 4) as usize] } else { (s % 40) as usize };
+    (0..len).map(|j| mix(s + j as u64) as u8).collect()
 }
 
 const META: Meta = Meta {
-    rule: "proptest histories of sign calls with the real entropy path (no scripted randomness): 1-4 Falcon-512 and 1-2 Falcon-1024 keys, 1-4 messages per key (so (key, message) pairs repeat thousands of times), 4-12 threads started at the beginning and 4-12 fresh threads started mid-history, and child processes (the harness re-executes itself) each signing one fixed (key, message) four times. Invariants over the whole history: all salts pairwise distinct (which includes: same (key, message) signed twice => different salts; first salts of fresh threads and fresh processes distinct), all signature byte strings distinct, every one of the 320 salt bit positions takes both values, every salt byte position passes a chi-square test against the uniform distribution on 256 values at p = 1e-12. Non-trivial = a history with a repeated (key, message) pair and more than one thread or a child process; the count adds each repeated pair, fresh thread and child process of such a history.",
+    rule: "proptest histories of sign calls with the real entropy path (no scripted randomness): 1-4 Falcon-512 and 1-2 Falcon-1024 keys, 1-4 messages per key (so (key, message) pairs repeat thousands of times; message no. 1 of every key is a large message of 4100-70000 bytes whose length is shared by all keys of the history), 4-12 threads started at the beginning and 4-12 fresh threads started mid-history, and child processes (the harness re-executes itself) each signing one fixed (key, message) four times. Invariants over the whole history: all salts pairwise distinct (which includes: same (key, message) signed twice => different salts; first salts of fresh threads and fresh processes distinct), all signature byte strings distinct, every one of the 320 salt bit positions takes both values, every salt byte position passes a chi-square test against the uniform distribution on 256 values at p = 1e-12. Non-trivial = a history with a repeated (key, message) pair and more than one thread or a child process; the count adds each repeated pair, fresh thread and child process of such a history.",
     assumptions: &[
         "'drawn from the OS-seeded generator' is observable only through these consequences: a generator with >= 2^64 states seeded badly but differently per process would pass",
         "false alarms: a collision of honest 320-bit salts has probability < 1e-80; the 40 chi-square tests together < 4e-11; a constant bit among >= 2000 honest salts < 1e-599",
-        "birthday bound: N salts detect any salt source with fewer than about N^2/2 states with probability > 1/2 (20 000 salts: 2^27 states; 250 000 in the thorough tier: 2^35)",
+        "birthday bound: N salts detect any salt source with fewer than about N^2/2 states with probability > 1/2 (50 000 salts per history: about 2^30 states; 400 000 in the thorough tier: 2^36)",
     ],
 };
 
